@@ -216,6 +216,33 @@ func opAugment(r *rand.Rand, n int, tier string, seed int64) {
 		}
 		file := base + "/proj/main.go"
 		files := map[string]string{base + "/proj/go.mod": "module example.com/aug\n", file: src.String()}
+		// a second package declaring functions with the SAME unqualified names but other signatures
+		var src2 strings.Builder
+		src2.WriteString("package other\n\ntype T struct{ x int }\n\nfunc mark() {}\n\n")
+		line2 := 7
+		var fs2 []afunc
+		for k := 0; k < nf; k++ {
+			f := afunc{name: fs[k].name, ptrRecv: fs[k].ptrRecv}
+			np := 1 + r.Intn(4)
+			var decl []string
+			for p := 0; p < np; p++ {
+				ap := genParam(r, f32, f64)
+				f.params = append(f.params, ap)
+				decl = append(decl, fmt.Sprintf("q%d %s", p, ap.typ))
+			}
+			if f.ptrRecv {
+				fmt.Fprintf(&src2, "func (t *T) m%d(%s) {\n", k, strings.Join(decl, ", "))
+			} else {
+				fmt.Fprintf(&src2, "func f%d(%s) {\n", k, strings.Join(decl, ", "))
+			}
+			line2++
+			f.bodyLine = line2
+			src2.WriteString("\tmark()\n}\n\n")
+			line2 += 3
+			fs2 = append(fs2, f)
+		}
+		file2 := base + "/proj/other/o.go"
+		files[file2] = src2.String()
 		mismatch := r.Intn(5)
 		switch mismatch {
 		case 0: // sources missing
@@ -226,7 +253,23 @@ func opAugment(r *rand.Rand, n int, tier string, seed int64) {
 		// one goroutine, one frame per function
 		gr := dGoroutine{ID: 1, State: "running", ElideAfter: -1}
 		var fr []string
-		for k, f := range fs {
+		type fr2 struct {
+			f    afunc
+			file string
+			pkg  string
+			main bool
+		}
+		var all []fr2
+		for _, f := range fs {
+			all = append(all, fr2{f, file, "main", true})
+		}
+		for _, f := range fs2 {
+			if r.Intn(2) == 0 {
+				all = append(all, fr2{f, file2, "example.com/aug/other", false})
+			}
+		}
+		for k, x := range all {
+			f := x.f
 			var words []uint64
 			var types, shows []string
 			if f.ptrRecv {
@@ -241,12 +284,18 @@ func opAugment(r *rand.Rand, n int, tier string, seed int64) {
 				shows = append(shows, ap.show)
 			}
 			ln := f.bodyLine
+			lastOfFile := (x.main && f.bodyLine == fs[len(fs)-1].bodyLine) || (!x.main && f.bodyLine == fs2[len(fs2)-1].bodyLine)
+			if r.Intn(4) == 0 && !lastOfFile {
+				// the closing brace of the function: what the runtime reports for a deferred call at return
+				// (for the last declaration of a file no node follows and the frame stays unaugmented)
+				ln++
+			}
 			expected := strings.Join(shows, "\x00")
 			tdesc := types
 			noFunc := false
 			switch {
 			case mismatch == 2 && k == 0: // line beyond the end of the file
-				ln = line + 50
+				ln = line + line2 + 50
 				tdesc, expected, noFunc = nil, "-", true
 			case mismatch == 3 && k == 0 && len(words) > 0: // arity differs: one word fewer
 				words = words[:len(words)-1]
@@ -255,14 +304,14 @@ func opAugment(r *rand.Rand, n int, tier string, seed int64) {
 				words = append(words, 7, 8)
 				expected = "-"
 			}
-			if mismatch == 0 || mismatch == 1 {
+			if (mismatch == 0 || mismatch == 1) && x.main {
 				tdesc, expected, noFunc = nil, "-", true
 			}
 			var args []dArg
 			for _, w := range words {
 				args = append(args, dArg{V: w})
 			}
-			gr.Frames = append(gr.Frames, dFrame{Sym: dSym{Pkg: "main", Name: f.name}, Args: args, File: file, Line: ln, Off: " +0x1d"})
+			gr.Frames = append(gr.Frames, dFrame{Sym: dSym{Pkg: x.pkg, Name: f.name}, Args: args, File: x.file, Line: ln, Off: " +0x1d"})
 			td := "none"
 			if !noFunc {
 				var hx []string
